@@ -599,7 +599,9 @@ func checkSingleWrite(p *an.Prog, r *an.Run, d *types.Named, kind string, m *ssa
 		return
 	}
 	ops := driverOps(p, d, m)
-	writes := filterOps(ops, func(o storeOp) bool { return (o.Kind == opWrite || o.Kind == opDelete) && isLedgerSpace(o) && o.Fn == region })
+	writes := filterOps(ops, func(o storeOp) bool {
+		return (o.Kind == opWrite || o.Kind == opDelete) && isLedgerSpace(o) && o.Fn == region
+	})
 	outside := filterOps(ops, func(o storeOp) bool { return (o.Kind == opWrite || o.Kind == opDelete) && o.Fn != region })
 	var bad []string
 	for _, o := range outside {
@@ -708,7 +710,9 @@ func checkMigrate(p *an.Prog, r *an.Run, d *types.Named, kind string, m *ssa.Fun
 	trialDel := filterOps(ops, func(o storeOp) bool { return o.Kind == opDelete && o.inSpace("trial") })
 	trialW := filterOps(ops, func(o storeOp) bool { return o.Kind == opWrite && o.inSpace("trial") })
 	acctW := filterOps(ops, func(o storeOp) bool { return o.Kind == opWrite && o.inSpace("account") })
-	trialR := filterOps(ops, func(o storeOp) bool { return o.Kind == opRead && o.inSpace("trial") })
+	// the credit to migrate is read from the trial space and nowhere else (a key that may also name the wallet's
+	// balance would migrate the wallet's own credit again when an already linked node is linked once more)
+	trialR := filterOps(ops, func(o storeOp) bool { return o.Kind == opRead && o.inSpace("trial") && !o.inSpace("balance") })
 	if len(balW) != 1 {
 		bad = append(bad, "expected one write of the account balance, found "+itoa(len(balW)))
 	}
